@@ -8,6 +8,7 @@ import (
 	"bytes"
 	"encoding/json"
 	"fmt"
+	"sort"
 	"strconv"
 	"strings"
 )
@@ -412,7 +413,15 @@ func (s *TypedMapType) IsValidExpression(exp Exp, pipeline *Pipeline, ast *Ast) 
 		}
 		var errs ErrorList
 		isDir := (s.IsFile() == KindIsDirectory)
-		for key, subexp := range exp.Value {
+		// Check keys in sorted order, so that errors are reported in a
+		// consistent order.
+		keys := make([]string, 0, len(exp.Value))
+		for key := range exp.Value {
+			keys = append(keys, key)
+		}
+		sort.Strings(keys)
+		for _, key := range keys {
+			subexp := exp.Value[key]
 			if err := s.Elem.IsValidExpression(subexp, pipeline, ast); err != nil {
 				errs = append(errs, &IncompatibleTypeError{
 					Message: "map key " + key,
@@ -467,7 +476,13 @@ func (s *TypedMapType) IsValidJson(data json.RawMessage,
 	subtype := s.Elem
 	isDir := (s.IsFile() == KindIsDirectory)
 	var errs ErrorList
-	for k, element := range m {
+	keys := make([]string, 0, len(m))
+	for k := range m {
+		keys = append(keys, k)
+	}
+	sort.Strings(keys)
+	for _, k := range keys {
+		element := m[k]
 		if err := subtype.IsValidJson(element, alarms, lookup); err != nil {
 			errs = append(errs, &IncompatibleTypeError{
 				Message: "key " + k,
